@@ -359,11 +359,12 @@ def check(run, replay=None):
         run.count(transcript, nontrivial=loaded and nsteps > 0, kind=c.kind + (":loaded" if loaded else ":not-loaded"),
                   sample={"case": c.name[:300], "steps": [st["step"] for st in (r["steps"] if r else [])][:4]})
         if loaded and not crash and (r.get("init") != "init wf ok" or r.get("initcheck") != "check ok"):
-            # the topology was not well formed before any restrict step: not a C08 matter (C01/C05/C06)
-            run.bump("skipped:initial-topology-not-well-formed")
-            run.cov.setdefault("initial_not_wf", [])
-            if len(run.cov["initial_not_wf"]) < 5:
-                run.cov["initial_not_wf"].append({"case": c.name[:200], "wf": str(r.get("init"))[:200], "check": r.get("initcheck")})
+            # the topology is not well formed before any restrict step (load-time defect, C01's domain; the three known
+            # causes are fixed in /repo: c78f232, 55dd5ed, 987c54a): reported, not skipped
+            clauses = sorted(set(re.findall(r"([a-zA-Z-]+)@", str(r.get("init"))))) or ["topology_check"]
+            run.violation("initial-topology-not-well-formed:%s" % ",".join(clauses),
+                          "topology not well formed right after load (before any restrict): %s" % c.name[:200],
+                          c.replay_text() + "\n--- verdict\n%s\n%s" % (r.get("init"), r.get("initcheck")))
             continue
         if crash:
             lines = shrink_case(c, exe, drv, None, "crash") if nshrunk < 6 else c.script()
